@@ -152,6 +152,8 @@ Section ConcProofs.
       pose proof (del_ok t k i n W Hh) as H. destruct (tdel mix t k) as [t' r]. simpl in *.
       destruct H as [A [B C]]. split; [exact A|]. split; [exact B|]. split; [exact C|]. destruct r; lia.
     - split; [exact W|]. split; [exact Hh|simpl; lia].
+    - split; [exact W|]. split; [exact Hh|simpl; lia].
+    - split; [exact W|]. split; [exact Hh|simpl; lia].
   Qed.
 
   (* ------------------------------------------------------ the invariant *)
@@ -171,6 +173,9 @@ Section ConcProofs.
     - rewrite sum_owed_lupd by auto. rewrite Hth. simpl. lia.
     - intros th Hin. apply in_lupd in Hin. destruct Hin as [->|Hin]; auto.
   Qed.
+
+  Lemma ghost_inv s e o : Inv s -> Inv (with_ghost s e o).
+  Proof. intros [A B C]. constructor; simpl; auto. Qed.
 
   Lemma seg_home m i : SegsOK m -> i < nsegs m -> forall k', abs (seg m i) k' <> None -> sidx (nsegs m) k' = i.
   Proof. intros [_ [_ H]] Hi k'. apply H. exact Hi. Qed.
@@ -223,11 +228,13 @@ Section ConcProofs.
       + unfold thr_ok; simpl. destruct (evict_toll_deficit - d <=? 0)%Z; simpl; auto.
       + subst n m. simpl. destruct (Z.ltb_spec 0 d); destruct (evict_toll_deficit - d <=? 0)%Z; simpl; lia.
     - (* SpLoad *)
-      intros E; inversion E; subst s'.
-      eapply with_pc_inv; [exact I|exact Htid|exact Eth|eassumption| |].
-      + unfold thr_ok; simpl.
-        destruct ((i <? n) && (0 <? deficit)%Z); simpl; auto. destruct (sm_count m <=? cap)%Z; simpl; auto.
-      + destruct ((i <? n) && (0 <? deficit)%Z); simpl; try (subst n m; lia). destruct (sm_count m <=? cap)%Z; subst n m; simpl; lia.
+      destruct ((i <? n) && (0 <? deficit)%Z).
+      + intros E; inversion E; subst s'.
+        eapply with_pc_inv; [exact I|exact Htid|exact Eth|eassumption| |].
+        * unfold thr_ok; simpl. destruct (sm_count m <=? cap)%Z; simpl; auto.
+        * destruct (sm_count m <=? cap)%Z; subst n m; simpl; lia.
+      + intros E; inversion E; subst s'. apply ghost_inv.
+        eapply with_pc_inv; [exact I|exact Htid|exact Eth|eassumption| |]; [unfold thr_ok; simpl; auto|subst n m; simpl; lia].
     - (* SpEvict *)
       set (j := (sidx n k + i) mod n).
       assert (Hj : j < n) by (apply Nat.mod_upper_bound; lia).
@@ -277,6 +284,15 @@ Section ConcProofs.
       eapply with_pc_inv; [exact I|exact Htid|exact Eth|eassumption| |].
       + unfold thr_ok; simpl; auto.
       + subst n m. simpl. lia.
+    - (* RdGet *)
+      destruct (lock_free s (sidx n k)); [|discriminate]. intros E; inversion E; subst s'. apply ghost_inv.
+      eapply with_pc_inv; [exact I|exact Htid|exact Eth|eassumption| |]; [unfold thr_ok; simpl; auto|subst n m; simpl; lia].
+    - (* FeSeg *)
+      destruct (i <? n).
+      + destruct (lock_free s i); [|discriminate]. intros E; inversion E; subst s'.
+        eapply with_pc_inv; [exact I|exact Htid|exact Eth|eassumption| |]; [unfold thr_ok; simpl; auto|subst n m; simpl; lia].
+      + intros E; inversion E; subst s'. apply ghost_inv.
+        eapply with_pc_inv; [exact I|exact Htid|exact Eth|eassumption| |]; [unfold thr_ok; simpl; auto|subst n m; simpl; lia].
   Qed.
 
   Lemma run_inv sched : forall s, Inv s -> Inv (run s sched).
@@ -349,6 +365,219 @@ Section ConcProofs.
     destruct I as [_ Hl Ht]. pose proof (owed_le_inside _ Ht). unfold entries, inside. lia.
   Qed.
 
+
+  (* ------------------------------------------------ capacity, every schedule *)
+  (* what a SetWithCap call in flight may still add net to the map: 1 until it has
+     evicted something, 0 afterwards *)
+  Definition cr (p : pc) : Z :=
+    match p with
+    | SwcAdd _ _ isnew => if isnew then 1 else 0
+    | SwcLoad _ _ => 1
+    | SwcSub _ _ d => Z.max (1 - d) 0
+    | SpLoad _ _ _ deficit => Z.max (deficit - 1) 0
+    | SpEvict _ _ _ deficit => Z.max (deficit - 1) 0
+    | SpSub _ _ _ deficit d => Z.max (deficit - d - 1) 0
+    | _ => 0
+    end.
+  Fixpoint sum_cr (thr : list (pc * list call)) : Z :=
+    match thr with [] => 0%Z | th :: r => (cr (fst th) + sum_cr r)%Z end.
+  Lemma sum_cr_lupd tid th thr : tid < length thr ->
+    sum_cr (lupd tid th thr) = (sum_cr thr - cr (fst (nth tid thr (Idle, []))) + cr (fst th))%Z.
+  Proof.
+    revert tid; induction thr; intros [|tid]; simpl; intros; try lia.
+    rewrite IHthr by lia. lia.
+  Qed.
+
+  (* programs whose only inserting call is SetWithCap with one capacity (the cache.Cache API) *)
+  Definition capped (cap : Z) (c : call) : Prop :=
+    match c with CSwc _ _ c' => c' = cap | CSet _ _ => False | CPia _ _ => False | _ => True end.
+  Definition pc_capped (cap : Z) (p : pc) : Prop :=
+    match p with
+    | SwcLock _ _ c => c = cap
+    | SwcAdd _ c _ => c = cap
+    | SwcLoad _ c => c = cap
+    | SwcSub _ c d => c = cap /\ (0 <= d)%Z
+    | SpLoad _ c _ deficit => c = cap /\ (deficit <= 2)%Z
+    | SpEvict _ c _ deficit => c = cap /\ (deficit <= 2)%Z
+    | SpSub _ c _ deficit d => c = cap /\ (deficit <= 2)%Z /\ (0 <= d)%Z
+    | OpLock c => capped cap c
+    | OpAdd _ delta => (delta <= 0)%Z
+    | ClrSub _ d => (0 <= d)%Z
+    | _ => True
+    end.
+  Definition thr_capped (cap : Z) (th : pc * list call) : Prop :=
+    pc_capped cap (fst th) /\ forall c, In c (snd th) -> capped cap c.
+
+  Lemma capped_owed_le_cr cap p : pc_capped cap p -> (owed p <= cr p)%Z.
+  Proof. destruct p; simpl; try lia; destruct isnew; lia. Qed.
+  Lemma capped_cr_le_1 cap p : pc_capped cap p -> (0 <= cr p <= match p with Idle => 0 | _ => 1 end)%Z.
+  Proof. destruct p; simpl; try lia; destruct isnew; lia. Qed.
+  Lemma sum_owed_le_cr cap thr : (forall th, In th thr -> thr_capped cap th) -> (sum_owed thr <= sum_cr thr)%Z.
+  Proof.
+    induction thr as [|th thr IH]; simpl; intros H; [lia|].
+    pose proof (capped_owed_le_cr cap (fst th) (proj1 (H th (or_introl eq_refl)))).
+    specialize (IH (fun t Hin => H t (or_intror Hin))). lia.
+  Qed.
+  Lemma sum_cr_le_inside cap thr : (forall th, In th thr -> thr_capped cap th) ->
+    (sum_cr thr <= Z.of_nat (length (filter (fun th : pc * list call => match fst th with Idle => false | _ => true end) thr)))%Z.
+  Proof.
+    induction thr as [|[p r] thr IH]; simpl; intros H; [lia|].
+    pose proof (capped_cr_le_1 cap p (proj1 (H (p, r) (or_introl eq_refl)))) as Hp.
+    specialize (IH (fun t Hin => H t (or_intror Hin))).
+    destruct p; simpl in *; lia.
+  Qed.
+
+  Lemma table_op_nonpos cap t c : capped cap c -> (snd (table_op mix t c) <= 0)%Z.
+  Proof.
+    destruct c; simpl; intros H; try contradiction; try lia.
+    - destruct (tdel mix t k) as [t' r]. simpl. destruct r; lia.
+    - destruct (tget mix t k) as [cur|]; simpl; [|lia]. destruct (N.eqb cur old); simpl; lia.
+    - destruct (tget mix t k) as [cur|]; simpl; [|lia]. destruct (N.eqb cur old); simpl; [|lia].
+      destruct (tdel mix t k) as [t' r]. simpl. destruct r; lia.
+  Qed.
+
+  Record CapInv (cap : Z) (s : cstate) : Prop := {
+    ci_thr : forall th, In th (c_thr s) -> thr_capped cap th;
+    ci_exh : (0 <= c_exh s)%Z;
+    ci_bound : (entries s <= cap + sum_cr (c_thr s) + c_exh s)%Z }.
+
+  (* a step keeps the bound if it either respects the credits (A) or has just seen the counter within capacity (B) *)
+  Lemma cap_step cap s s' tid p rest p' rest' :
+    Inv s -> Inv s' -> CapInv cap s -> tid < length (c_thr s) -> nth tid (c_thr s) (Idle, []) = (p, rest) ->
+    c_thr s' = lupd tid (p', rest') (c_thr s) ->
+    thr_capped cap (p', rest') -> (c_exh s <= c_exh s')%Z ->
+    ((sm_count (c_map s') - sm_count (c_map s) + owed p' - owed p <= cr p' - cr p + c_exh s' - c_exh s)%Z \/
+     (sm_count (c_map s') <= cap)%Z) ->
+    CapInv cap s'.
+  Proof.
+    intros I I' [Ct Ce Cb] Htid Hth Hthr Hok Hexh Hcond.
+    pose proof (i_ledger s I) as L. pose proof (i_ledger s' I') as L'.
+    rewrite Hthr in L'. rewrite sum_owed_lupd in L' by auto. rewrite Hth in L'. simpl in L'.
+    assert (Ct' : forall th, In th (c_thr s') -> thr_capped cap th).
+    { intros th Hin. rewrite Hthr in Hin. apply in_lupd in Hin. destruct Hin as [->|Hin]; auto. }
+    constructor; auto; [lia|].
+    unfold entries in *. destruct Hcond as [HA|HB].
+    - rewrite Hthr, sum_cr_lupd by auto. rewrite Hth. simpl. lia.
+    - pose proof (sum_owed_le_cr cap (c_thr s') Ct') as Hle.
+      rewrite Hthr in Hle at 1. rewrite sum_owed_lupd in Hle by auto. rewrite Hth in Hle. simpl in Hle. lia.
+  Qed.
+
+  Lemma step_cap cap s tid s' : Inv s -> CapInv cap s -> step s tid = Some s' -> CapInv cap s'.
+  Proof.
+    intros I C Hstep. pose proof (step_inv s tid s' I Hstep) as I'.
+    pose proof (i_thr s' I') as Hok'.
+    revert Hstep I' Hok'. unfold Conc.step.
+    destruct (nth tid (c_thr s) (Idle, [])) as [p rest] eqn:Eth.
+    destruct (Nat.leb_spec (length (c_thr s)) tid) as [|Htid]; [discriminate|].
+    assert (Hin : In (p, rest) (c_thr s)) by (rewrite <- Eth; apply nth_In; exact Htid).
+    destruct (ci_thr cap s C _ Hin) as [Hpc Hrest]. simpl in Hpc, Hrest.
+    pose proof (ci_exh cap s C) as Hex.
+    assert (Hnew : forall s1 p1 rest1, c_thr s1 = lupd tid (p1, rest1) (c_thr s) -> (forall th, In th (c_thr s1) -> thr_ok th) -> pc_ok p1).
+    { intros s1 p1 rest1 Hs1 H1. apply (H1 (p1, rest1)). rewrite Hs1. rewrite <- (nth_lupd_eq tid (p1, rest1) (c_thr s) (Idle, [])) at 1 by auto.
+      apply nth_In. rewrite lupd_length. exact Htid. }
+    destruct p; simpl in Hpc.
+    - destruct rest as [|c rest']; [discriminate|]. intros E I' Hok'; inversion E; subst s'.
+      eapply (cap_step cap s _ tid _ _ _ _ I I' C Htid Eth eq_refl); simpl; try lia.
+      + split; simpl; [|intros c0 Hc0; apply Hrest; right; exact Hc0].
+        pose proof (Hrest c (or_introl eq_refl)) as Hc. destruct c; simpl in *; auto.
+      + left. destruct c; simpl; lia.
+    - destruct (lock_free s _); [|discriminate]. intros E I' Hok'; inversion E; subst s'.
+      eapply (cap_step cap s _ tid _ _ _ _ I I' C Htid Eth eq_refl); simpl; try lia.
+      + split; simpl; auto.
+      + left. destruct (tlen _ <? tlen _)%Z; lia.
+    - intros E I' Hok'; inversion E; subst s'.
+      eapply (cap_step cap s _ tid _ _ _ _ I I' C Htid Eth eq_refl); simpl; try lia.
+      + split; simpl; auto.
+      + left. destruct isnew; lia.
+    - destruct (Z.ltb_spec cap0 (sm_count (c_map s))).
+      + destruct (tevict mix _ _ _ _) as [t2 d]. intros E I' Hok'; inversion E; subst s'.
+        pose proof (Hnew _ _ _ eq_refl Hok') as Hd. simpl in Hd.
+        eapply (cap_step cap s _ tid _ _ _ _ I I' C Htid Eth eq_refl); simpl; try lia.
+        * split; simpl; auto.
+        * left. lia.
+      + intros E I' Hok'; inversion E; subst s'.
+        eapply (cap_step cap s _ tid _ _ _ _ I I' C Htid Eth eq_refl); simpl; try lia.
+        * split; simpl; auto.
+        * right. lia.
+    - destruct Hpc as [-> Hd]. intros E I' Hok'; inversion E; subst s'.
+      eapply (cap_step cap s _ tid _ _ _ _ I I' C Htid Eth eq_refl); simpl; try lia.
+      + split; simpl; auto. unfold evict_toll_deficit. destruct (2 - d <=? 0)%Z; simpl; auto. split; auto. lia.
+      + left. unfold evict_toll_deficit. destruct (Z.ltb_spec 0 d); destruct (Z.leb_spec (2 - d) 0); simpl; lia.
+    - destruct Hpc as [-> Hd]. destruct ((i <? nsegs (c_map s)) && (0 <? deficit)%Z).
+      + intros E I' Hok'; inversion E; subst s'.
+        destruct (Z.leb_spec (sm_count (c_map s)) cap).
+        * eapply (cap_step cap s _ tid _ _ _ _ I I' C Htid Eth eq_refl); simpl; try lia. { split; simpl; auto. } right. lia.
+        * eapply (cap_step cap s _ tid _ _ _ _ I I' C Htid Eth eq_refl); simpl; try lia. { split; simpl; auto. } left. lia.
+      + intros E I' Hok'; inversion E; subst s'.
+        eapply (cap_step cap s _ tid _ _ _ _ I I' C Htid Eth eq_refl); simpl; try lia. { split; simpl; auto. } left. lia.
+    - destruct Hpc as [-> Hd]. destruct (lock_free s _); [|discriminate]. destruct (tevict mix _ _ _ _) as [t2 d].
+      intros E I' Hok'; inversion E; subst s'.
+      pose proof (Hnew _ _ _ eq_refl Hok') as Hd'. simpl in Hd'.
+      eapply (cap_step cap s _ tid _ _ _ _ I I' C Htid Eth eq_refl); simpl; try lia.
+      + split; simpl; auto.
+      + left. lia.
+    - destruct Hpc as [-> [Hd Hd0]]. destruct (Z.ltb_spec 0 d); intros E I' Hok'; inversion E; subst s'.
+      + eapply (cap_step cap s _ tid _ _ _ _ I I' C Htid Eth eq_refl); simpl; try lia. { split; simpl; auto. split; auto. lia. } left. lia.
+      + eapply (cap_step cap s _ tid _ _ _ _ I I' C Htid Eth eq_refl); simpl; try lia. { split; simpl; auto. } left. lia.
+    - destruct (lock_free s _); [|discriminate].
+      pose proof (table_op_nonpos cap (seg (c_map s) (sidx (nsegs (c_map s)) (call_key c))) c Hpc) as Hnp.
+      destruct (table_op mix _ c) as [t' delta]. simpl in Hnp.
+      intros E I' Hok'; inversion E; subst s'.
+      eapply (cap_step cap s _ tid _ _ _ _ I I' C Htid Eth eq_refl); simpl; try lia.
+      + split; simpl; auto.
+      + left. lia.
+    - intros E I' Hok'; inversion E; subst s'.
+      eapply (cap_step cap s _ tid _ _ _ _ I I' C Htid Eth eq_refl); simpl; try lia. { split; simpl; auto. } left. lia.
+    - destruct (i <? nsegs (c_map s)).
+      + destruct (lock_free s i); [|discriminate]. intros E I' Hok'; inversion E; subst s'.
+        pose proof (Hnew _ _ _ eq_refl Hok') as Hd'. simpl in Hd'.
+        eapply (cap_step cap s _ tid _ _ _ _ I I' C Htid Eth eq_refl); simpl; try lia. { split; simpl; auto. } left. lia.
+      + intros E I' Hok'; inversion E; subst s'.
+        eapply (cap_step cap s _ tid _ _ _ _ I I' C Htid Eth eq_refl); simpl; try lia. { split; simpl; auto. } left. lia.
+    - intros E I' Hok'; inversion E; subst s'.
+      eapply (cap_step cap s _ tid _ _ _ _ I I' C Htid Eth eq_refl); simpl; try lia. { split; simpl; auto. } left. lia.
+    - destruct (lock_free s _); [|discriminate]. intros E I' Hok'; inversion E; subst s'.
+      eapply (cap_step cap s _ tid _ _ _ _ I I' C Htid Eth eq_refl); simpl; try lia. { split; simpl; auto. } left. lia.
+    - destruct (i <? nsegs (c_map s)).
+      + destruct (lock_free s i); [|discriminate]. intros E I' Hok'; inversion E; subst s'.
+        eapply (cap_step cap s _ tid _ _ _ _ I I' C Htid Eth eq_refl); simpl; try lia. { split; simpl; auto. } left. lia.
+      + intros E I' Hok'; inversion E; subst s'.
+        eapply (cap_step cap s _ tid _ _ _ _ I I' C Htid Eth eq_refl); simpl; try lia. { split; simpl; auto. } left. lia.
+  Qed.
+
+  Lemma run_cap cap sched : forall s, Inv s -> CapInv cap s -> CapInv cap (run s sched).
+  Proof.
+    induction sched as [|tid r IH]; intros s I C; simpl; auto.
+    destruct (step s tid) eqn:E; [|apply IH; auto].
+    apply IH; [eapply step_inv; eauto|eapply step_cap; eauto].
+  Qed.
+
+  (* Capacity under concurrency, every schedule: the number of entries never
+     exceeds capacity + calls in flight + the number of SetWithCap calls that have
+     so far returned from a fruitless scan of the whole ring (c_exh).  The last
+     term is necessary (occupancy_bound_refuted); where no such scan happens the
+     statement of the property holds as given. *)
+  Theorem occupancy_bound cap m0 progs sched :
+    SWF mix sidx m0 -> (sm_count m0 <= cap)%Z ->
+    (forall p, In p progs -> forall c, In c p -> capped cap c) ->
+    let s := run (init m0 progs) sched in
+    (entries s <= cap + inside s + c_exh s)%Z /\ (0 <= c_exh s)%Z /\
+    (c_exh s = 0%Z -> entries s <= cap + inside s)%Z.
+  Proof.
+    intros S Hc Hp s.
+    assert (I0 : Inv (init m0 progs)) by (apply init_inv; auto).
+    assert (C0 : CapInv cap (init m0 progs)).
+    { constructor; simpl.
+      - intros th Hin. apply in_map_iff in Hin. destruct Hin as [p [<- Hin]]. split; simpl; auto.
+      - lia.
+      - unfold entries. simpl. rewrite sum_sizes_same, <- (s_count mix sidx m0 S).
+        assert (sum_cr (map (fun p : list call => (Idle, p)) progs) = 0%Z) by (clear; induction progs; simpl; auto).
+        lia. }
+    pose proof (run_cap cap sched _ I0 C0) as [Ct Ce Cb]. fold s in Ct, Ce, Cb.
+    pose proof (sum_cr_le_inside cap _ Ct) as Hi. unfold inside.
+    split; [lia|]. split; [lia|]. intros E. lia.
+  Qed.
+
   (* ------------------------------------------------------------- locks *)
   Lemma nth_lupd_some {A} i (x : A) l j y : nth j (lupd i (Some x) l) None = Some y ->
     (j = i /\ y = x) \/ (j <> i /\ nth j l None = Some y).
@@ -385,6 +614,8 @@ Section ConcProofs.
     - rewrite nth_lupd_eq by auto. exact Hh.
     - rewrite nth_lupd_neq by auto. apply L. exact Hl.
   Qed.
+  Lemma ghost_lock s e o : LockInv s -> LockInv (with_ghost s e o).
+  Proof. intros L. exact L. Qed.
   Lemma lock_same s tid p p' rest : LockInv s -> nth tid (c_thr s) (Idle, []) = (p, rest) ->
     holds sidx (nsegs (c_map s)) p' = holds sidx (nsegs (c_map s)) p ->
     forall j t, nth j (c_locks s) None = Some t ->
@@ -432,8 +663,9 @@ Section ConcProofs.
       + intros E; inversion E; subst s'. apply with_pc_lock; auto. eapply lock_release; eauto; reflexivity.
     - intros E; inversion E; subst s'. apply with_pc_lock; auto. eapply lock_release; eauto; try reflexivity.
       destruct (evict_toll_deficit - d <=? 0)%Z; reflexivity.
-    - intros E; inversion E; subst s'. apply with_pc_lock; auto. eapply lock_same; eauto.
-      destruct ((i <? nsegs (c_map s)) && (0 <? deficit)%Z); [destruct (sm_count (c_map s) <=? cap)%Z|]; reflexivity.
+    - destruct ((i <? nsegs (c_map s)) && (0 <? deficit)%Z); intros E; inversion E; subst s'.
+      + apply with_pc_lock; auto. eapply lock_same; eauto. destruct (sm_count (c_map s) <=? cap)%Z; reflexivity.
+      + apply ghost_lock. apply with_pc_lock; auto. eapply lock_same; eauto.
     - destruct (lock_free s _); [|discriminate]. destruct (tevict mix _ _ _ _) as [t2 d].
       intros E; inversion E; subst s'. apply with_pc_lock; auto; [apply nsegs_set|]. eapply lock_same; eauto.
     - destruct (0 <? d)%Z; intros E; inversion E; subst s'; apply with_pc_lock; auto; eapply lock_same; eauto.
@@ -445,6 +677,12 @@ Section ConcProofs.
         apply with_pc_lock; auto; [apply nsegs_set|]. eapply lock_acquire; eauto; reflexivity.
       + intros E; inversion E; subst s'. apply with_pc_lock; auto. eapply lock_same; eauto.
     - intros E; inversion E; subst s'. apply with_pc_lock; auto. eapply lock_release; eauto; reflexivity.
+    - destruct (lock_free s _); [|discriminate]. intros E; inversion E; subst s'.
+      apply ghost_lock. apply with_pc_lock; auto. eapply lock_same; eauto.
+    - destruct (i <? nsegs (c_map s)).
+      + destruct (lock_free s i); [|discriminate]. intros E; inversion E; subst s'.
+        apply with_pc_lock; auto. eapply lock_same; eauto.
+      + intros E; inversion E; subst s'. apply ghost_lock. apply with_pc_lock; auto. eapply lock_same; eauto.
   Qed.
 
   Lemma run_lock sched : forall s, LockInv s -> LockInv (run s sched).
